@@ -57,7 +57,7 @@ const BREAKS: [&[(i64, i64)]; 8] = [
     &[(400, 1001)],
 ];
 
-const TIMING: [(i64, &str); 10] = [
+const TIMING: [(i64, &str); 12] = [
     (0, "500,4,1,0,100,1,0"),
     (0, "300,4,2,1,60,1,0"),
     (1000, "-50,4,1,0,100,0,0"),
@@ -68,6 +68,9 @@ const TIMING: [(i64, &str); 10] = [
     (2000, "600,4,1,0,80,1,0"),
     (999, "-1000,4,1,0,100,0,0"),
     (1001, "-10,4,1,0,100,0,0"),
+    // with the first line: sample settings A -> B -> A (two different sections with identical settings)
+    (1200, "-100,4,2,1,60,0,0"),
+    (1700, "-100,4,1,0,100,0,0"),
 ];
 
 fn timing_sets(full: bool) -> Vec<Vec<usize>> {
@@ -87,6 +90,8 @@ fn timing_sets(full: bool) -> Vec<Vec<usize>> {
     v.push(vec![8, 9]);
     v.push(vec![2, 9]);
     v.push(vec![0, 8]);
+    v.push(vec![0, 10, 11]);
+    v.push(vec![10, 11]);
     v.sort();
     v.dedup();
     v.retain(|s| s.windows(2).all(|w| TIMING[w[0]].0 <= TIMING[w[1]].0));
@@ -501,7 +506,7 @@ pub fn run(tier: Tier) -> i32 {
     }
     let summary = Summary {
         rule: "every map assembled from n object lines in ANY file order (8 object kinds x 4 times, each with a distinguishing \
-               position) x 8 break lists (incl. break end =, < and > an object start) x sets of <= 2 timing lines (sample points at \
+               position) x 8 break lists (incl. break end =, < and > an object start) x sets of <= 2 timing lines and one of 3 with sample settings A->B->A (sample points at \
                +4/+5/+6 ms, SV 0.1/0.5/2/10, two timing points) x modes x slider multipliers {0.4,1.4,3.6}: decoded objects must be \
                the stable sort of the raw objects, first combo-capable object after each break flagged, slider velocity and \
                duration equal their closed forms (1e-12), samples/node samples completed from the sample point active 5 ms after \
